@@ -217,19 +217,23 @@ def ref_payload_checksum(data: bytes) -> int:
 
 
 def build_guardrails(config_block: bytes, env_key: bytes, guard_settings: Sequence[Sequence],
-                     checksum_override: Optional[int] = None, with_checksum: bool = True) -> Tuple[bytes, Dict[str, object]]:
+                     checksum_override: Optional[int] = None, with_checksum: bool = True,
+                     checksum_pos: Optional[int] = None) -> Tuple[bytes, Dict[str, object]]:
     """Returns the 6144+2048 protected area: masked beacon config followed by masked guard config."""
     cfg = config_block + bytes(GUARD_BEACON_PATCH - len(config_block))
     assert len(cfg) == GUARD_BEACON_PATCH
     checksum = ref_payload_checksum(cfg) + 1 if checksum_override is None else checksum_override
     masked_cfg = xor1(xor_tile(cfg, env_key), 0x2E)
     guard = bytearray()
+    recs = []
     for opt, typ, value in guard_settings:
         if isinstance(value, str):
             value = bytes.fromhex(value)
-        guard += encode_setting(opt, typ, value)
+        recs.append(encode_setting(opt, typ, value))
     if with_checksum:
-        guard += encode_setting(9, "int", checksum)
+        # the checksum option is normally the last one; any position after the first option is legal
+        recs.insert(len(recs) if checksum_pos is None else max(1, min(checksum_pos, len(recs))), encode_setting(9, "int", checksum))
+    guard += b"".join(recs)
     guard += b"\x00\x00"
     guard = bytes(guard) + bytes(GUARD_PATCH - len(guard))
     rev = masked_cfg[::-1]
